@@ -67,6 +67,9 @@ type Result struct {
 	Samples      []any            `json:"samples,omitempty"`
 	Failures     []Failure        `json:"failures,omitempty"`
 	Inconclusive []string         `json:"inconclusive,omitempty"`
+	// Digests: named digests that must agree whenever two cases (possibly in different worker
+	// processes) report the same name: cross-process determinism.
+	Digests map[string]string `json:"digests,omitempty"`
 	// SubDone: number of sub-items completed (for resume after a crash).
 	SubDone int `json:"sub_done,omitempty"`
 }
@@ -79,6 +82,13 @@ func (r *Result) Count(k string, n int64) {
 }
 
 func (r *Result) Inc(k string) { r.Count(k, 1) }
+
+func (r *Result) Digest(name, value string) {
+	if r.Digests == nil {
+		r.Digests = map[string]string{}
+	}
+	r.Digests[name] = value
+}
 
 const maxFailuresPerCase = 25
 
